@@ -779,3 +779,41 @@ def rule_norefuse(ctx, R):
             R.finding(PF, "refusal-before-queue-test:%s" % ((msg or "?").split(" ")[1] if msg and " " in msg else (msg or "?"))[:24],
                       "process_frame can answer an error (%r, line %d) to a connection that is inside MULTI on a path that skips the queue step: the command is dropped from the transaction without marking it aborted, so EXEC runs only the others" % (msg, b.bb_line(i)), b.loc(i))
     R.floor("error_replies_after_state_read", n)
+
+
+def rule_tx_refuse_pure(ctx, R):
+    """a transaction-control command that is refused (nested MULTI, WATCH inside MULTI, DISCARD
+    without MULTI) changes nothing: in the control handlers no write to the connection's
+    transaction state can precede the construction of an error reply"""
+    n = 0
+    TS = "TransactionState."
+    for fn, b in sorted(ctx.prog.bodies.items()):
+        if not fn.startswith("storage::commands::transactions::") or "::tests::" in fn or b.kind == "Closure":
+            continue
+        if not any("network::connection::Connection" in ty for ty in b.arg_tys()):
+            continue
+        if fn not in shared.command_path(ctx):
+            continue      # unused duplicates (transactions::handle_exec) are not part of the server
+        errs = [i for i, t in b.calls() if (t["def"] or "").endswith("RespFrame::error")]
+        if not errs:
+            continue
+        muts = []
+        for i, bb in enumerate(b.bbs):
+            if bb.get("cleanup"):
+                continue
+            for st in bb["s"]:
+                if st["k"] == "=" and any(isinstance(e, dict) and (TS in str(e.get("f", "")) or str(e.get("f", "")).endswith("Connection.transaction_state")) for e in st["l"]["p"]):
+                    muts.append(i)
+            t = bb["t"]
+            if t["k"] == "call" and t["a"] and not op_is_const(t["a"][0]) and re.search(r"^std::mem::(take|replace|swap)::<|::(clear|push_back|push|insert|remove|drain|retain|take)(::<.*>)?$", t["f"] or ""):
+                P = prov.operand_origins(b, t["a"][0])
+                if any(TS in f_ or f_.endswith("Connection.transaction_state") for f_ in P.fields) and "&mut" in b.locals[op_place(t["a"][0])["l"]]:
+                    muts.append(i)
+        for k, e in enumerate(errs):
+            n += 1
+            before = [m for m in muts if e in cfg.fwd(b, [m]) and m != e]
+            R.inst(fn, "refusal#%d" % k, {"function": fn.split("::")[-1], "at": b.loc(e), "state_writes_that_can_precede_it": len(before)})
+            if before:
+                R.finding(fn, "refusal-after-state-write",
+                          "%s can write the connection's transaction state (line %d) and then answer an error (line %d): the refused command is not without effect -- a nested MULTI that is refused must leave the queued commands alone" % (fn.split("::")[-1], b.bb_line(before[0]), b.bb_line(e)), b.loc(e))
+    R.floor("control_handler_refusals", n)
